@@ -41,7 +41,8 @@ C(f"{F}:Tokenizer.is_blank", params={**T, "tok": "Tok"}, returns="bool", raises=
 
 C(f"{F}:Tokenizer.diagnose", params=T, returns="Tok",
   requires=["tk_ok(self)", "len(self._tokens) > 0 or self._index == 0"],
-  ensures=["len(self._tokens) > 0", "result == self._tokens[len(self._tokens) - 1]", "tk_ok(self)",
+  ensures=["len(self._tokens) > 0", "result == self._tokens[len(self._tokens) - 1]", "tk_ok(self)", "implies(old(toks_wf(self)), toks_wf(self) and tok_wf(result))",
+           "implies(old(len(self._tokens)) > 0, self._tokens == old(self._tokens) and self._index == old(self._index))",
            "prefix_of(old(self._tokens), self._tokens)", "self._index >= old(self._index)", "self._index <= len(self._tokens)"],
   modifies=["self._index", "self._tokens", "self._tokengen", "self._lines", "self._stack", "self._call_macro", "self._with_macro"],
   raises=["SyntaxError"], properties=["C03", "C11"])
@@ -51,29 +52,38 @@ STACK_OK = "all(self._stack[j].type == Token.OP or self._stack[j].type == Token.
 C(f"{F}:Tokenizer.consume_macro_params", params=T, returns="Tok", verify=False,
   why_assumed="raw-capture loop over the generator with optional locals: outside the executor's subset; bounded stand-in only (C03/C07)",
   requires=["self._call_macro"], modifies=["self._tokengen", "self._stack", "self._call_macro"],
-  ensures=["tk_ok(self)", "not endmarker_pulled(self) or len(self._stack) > 0", "gen_pos(self) - old(gen_pos(self)) >= 1 + len(self._stack) - old(len(self._stack))"],
+  ensures=["tk_ok(self)", "not endmarker_pulled(self) or len(self._stack) > 0", "gen_pos(self) - old(gen_pos(self)) >= 1 + len(self._stack) - old(len(self._stack))",
+           "implies(old(toks_wf(self)), toks_wf(self) and tok_wf(result))"],
   may_raise=["SyntaxError"], properties=["C07"])
 
 C(f"{F}:Tokenizer.consume_with_macro_params", params=T, returns="Tok", verify=False,
   why_assumed="raw-capture loop over the generator: bounded stand-in only (C07)",
   requires=["self._with_macro", "len(self._tokens) > 0"], modifies=["self._tokengen", "self._with_macro", "self._stack"],
-  ensures=["result.type == Token.MACRO_PARAM", "tk_ok(self)", "gen_pos(self) > old(gen_pos(self)) + len(self._stack) - old(len(self._stack))"], properties=["C07"])
+  ensures=["result.type == Token.MACRO_PARAM", "tk_ok(self)", "gen_pos(self) > old(gen_pos(self)) + len(self._stack) - old(len(self._stack))",
+           "implies(old(toks_wf(self)), toks_wf(self) and tok_wf(result))"], properties=["C07"])
 
 STACK_OK = "all(self._stack[j].type == Token.OP or self._stack[j].type == Token.ENDMARKER for j in range(len(self._stack)))"
 PEEK_REQ = ["tk_ok(self)", "can_peek(self)"]
 
 C(f"{F}:Tokenizer.peek", params=T, returns="Tok", requires=PEEK_REQ,
   ensures=["self._index == old(self._index)", "self._index < len(self._tokens)", "result == self._tokens[self._index]",
-           "prefix_of(old(self._tokens), self._tokens)", "tk_ok(self)"],
+           "prefix_of(old(self._tokens), self._tokens)", "tk_ok(self)", "implies(old(toks_wf(self)), toks_wf(self))"],
   modifies=["self._tokens", "self._tokengen", "self._lines", "self._stack", "self._call_macro", "self._with_macro"],
   loops={0: {"inv": ["cache_wf(self)", "prefix_of(old(self._tokens), self._tokens)", "self._index == old(self._index)",
-                     "tk_ok(self)", "can_peek(self)"],
+                     "tk_ok(self)", "can_peek(self)", "implies(old(toks_wf(self)), toks_wf(self))"],
              "nodec_ok": True,
              "havoc": ["self._tokens", "self._tokengen", "self._lines", "self._stack", "self._call_macro", "self._with_macro"]}},
   raises=["SyntaxError"], properties=["C01", "C03", "C07"])
 
 C(f"{F}:Tokenizer.getnext", params=T, returns="Tok", requires=PEEK_REQ,
   ensures=["self._index == old(self._index) + 1", "self._index <= len(self._tokens)", "result == self._tokens[old(self._index)]",
-           "prefix_of(old(self._tokens), self._tokens)", "tk_ok(self)"],
+           "prefix_of(old(self._tokens), self._tokens)", "tk_ok(self)", "implies(old(toks_wf(self)), toks_wf(self))"],
   modifies=["self._index", "self._tokens", "self._tokengen", "self._lines", "self._stack", "self._call_macro", "self._with_macro"],
   raises=["SyntaxError"], properties=["C03", "C17"])
+
+C(f"{F}:Tokenizer.get_lines", params={**T, "line_numbers": "seq[int]"}, returns="seq[str]",
+  ensures=["len(result) == len(line_numbers)",
+           # string mode: the cached text of each requested line, '' for a line without a token of its own (never KeyError)
+           "implies(truthy(self._lines), all(result[j] == self._lines.get(line_numbers[j], '') for j in range(len(line_numbers))))"],
+  loops={0: {"inv": ["count == _i", "seen >= 0"], "types": {}}},
+  raises=[], properties=["C03", "C11", "C12"])
